@@ -81,8 +81,8 @@ def _group_status(pgid):
     return res
 
 
-def run_checker(scenario, cfg, cpu=120, wall=900, poll=1.0, still_polls=4):
-    """-> (core.RunResult, hang: bool).  cfg: list of 'name:value'."""
+def run_checker(scenario, cfg, cpu=120, wall=900, poll=1.0, still_polls=4, logs=()):
+    """-> (core.RunResult, hang: bool).  cfg: list of 'name:value'; logs: list of '--log=' settings."""
     import json
     import os
     import signal
@@ -93,7 +93,8 @@ def run_checker(scenario, cfg, cpu=120, wall=900, poll=1.0, still_polls=4):
     path = core.write_tmp(json.dumps(scenario))
     out = tempfile.TemporaryFile()
     err = tempfile.TemporaryFile()
-    cmd = [build.sg_bin("simgrid-mc"), build.drv("s4u_interp"), "--mc", path, "--log=no_loc"] + ["--cfg=" + c for c in cfg]
+    cmd = [build.sg_bin("simgrid-mc"), build.drv("s4u_interp"), "--mc", path, "--log=no_loc"] + ["--log=" + l for l in logs] + \
+        ["--cfg=" + c for c in cfg]
     p = subprocess.Popen(cmd, stdin=subprocess.DEVNULL, stdout=out, stderr=err, env=build.runtime_env(), start_new_session=True)
     t0 = time.time()
     still = 0
@@ -135,3 +136,26 @@ def run_checker(scenario, cfg, cpu=120, wall=900, poll=1.0, still_polls=4):
     r = core.RunResult(p.returncode if not (hang or cpu_exceeded or wall_exceeded) else -9, out.read().decode("utf-8", "replace"),
                        err.read().decode("utf-8", "replace"), cpu_exceeded, wall_exceeded)
     return r, hang
+
+
+def explored_traces(err):
+    """Complete executions explored by the DFS explorer, as tuples of actor ids, rebuilt from its verbose log
+    (--log=mc_dfs.thres:verbose): 'Executed <aid>: ... (stack depth: d, ...' lines give the current path, 'Execution came to an
+    end at <trace>' closes a complete execution (the printed trace is cut at 100 characters: only used as a cross-check)."""
+    path = []
+    traces = []
+    mismatch = None
+    for line in err.splitlines():
+        m = re.search(r"Executed (\d+): .* \(stack depth: (\d+),", line)
+        if m:
+            d = int(m.group(2))
+            path = path[:d - 1] + [int(m.group(1))]
+            continue
+        m = re.search(r"Execution came to an end at (\S*)", line)
+        if m:
+            traces.append(tuple(path))
+            printed = m.group(1)
+            mine = ";".join(str(a) for a in path)
+            if len(printed) < 100 and printed != mine and mismatch is None:
+                mismatch = (printed, mine)
+    return traces, mismatch
